@@ -45,7 +45,7 @@ def cfile(f):
 
 
 def to_coq(c):
-    th = c["threads"]
+    th = c.get("threads") or []
     qs, rs, es, threads, shapes = [], [], [], [], []
     seen = set()
     for i, t in enumerate(th):
@@ -87,7 +87,7 @@ def to_coq(c):
 def nontrivial(c):
     # a reload step between two steps of one query
     steps = c.get("steps") or []
-    kinds = [t["kind"] for t in c["threads"]]
+    kinds = [t["kind"] for t in c.get("threads") or []]
     first, last = {}, {}
     for i, s in enumerate(steps):
         if s["b"]:
@@ -119,7 +119,7 @@ def shrink_candidates(c):
 # violating query has that finding's shape.
 
 def _analysis(c):
-    th = c["threads"]
+    th = c.get("threads") or []
     steps = c.get("steps") or []
     relerr = c.get("relerr") or []
     resps = c.get("resps") or []
@@ -170,7 +170,7 @@ def _analysis(c):
 
 def violations(c):
     """list of (clause, query thread) pairs violated by the observation; None if the case has a harness error"""
-    if c.get("err") or any(not r["done"] for t, r in zip(c["threads"], c.get("resps") or []) if t["kind"] == "q"):
+    if c.get("err") or any(not r["done"] for t, r in zip(c.get("threads") or [], c.get("resps") or []) if t["kind"] == "q"):
         return None
     a = _analysis(c)
     v = []
@@ -190,28 +190,48 @@ def violations(c):
 
 
 def _catchups(c, a):
-    """steps at which a RocksDB backend was caught up in place: (step index, kind, reload thread)
-    kind: 'ok' (successful partial reload / full reload of the served path), 'nokey' (F23), 'late' (F24)"""
+    """steps at which a RocksDB backend was caught up in place: (step index, kind, reload thread, stamp exposed)
+    kind: 'ok' (successful partial reload), 'nokey' (F23), 'late' (F24)"""
     if c["cfg"]["backend"] == "cdb":
         return []
     res = []
     th = c["threads"]
     relerr = c.get("relerr") or []
+    disk0 = {d["path"]: d["file"] for d in c["disk"]}
+
+    def disk_at(i):
+        d = dict(disk0)
+        for t, x in enumerate(th):
+            if x["kind"] == "e" and t in a["done"] and a["done"][t] < i:
+                d[x.get("path", 0)] = x["file"]
+        return d
+
+    # path every reload acted on: partial = path of the last full reload that had returned nil before it locked
+    fulls = sorted((a["done"][t], x.get("path", 0)) for t, x in enumerate(th)
+                   if x["kind"] == "r" and x.get("full") and t in a["done"] and relerr[t] == "ok")
     for t, x in enumerate(th):
-        if x["kind"] != "r" or t not in a["second"]:
-            continue
-        if x.get("full"):
-            continue   # the generators never name the served path in a full reload
-        if relerr[t] == "ok":
-            res.append((a["second"][t], "ok", t))
-        elif relerr[t] == "nokey":
-            res.append((a["second"][t], "nokey", t))
-        elif relerr[t] == "timeout":
-            res.append((a["done"].get(t, a["second"][t]), "late", t))
+        if x["kind"] != "r" or t not in a["second"] or x.get("full"):
+            continue   # (the generators never name the served path in a full reload)
+        path = c["p0"]
+        for dn, p in fulls:
+            if dn < a["first"][t]:
+                path = p
+        at = a["second"][t] if relerr[t] != "timeout" else a["done"].get(t, a["second"][t])
+        f = disk_at(at).get(path)
+        stamp = f["stamp"] if f else None
+        kind = {"ok": "ok", "nokey": "nokey", "timeout": "late"}.get(relerr[t])
+        if kind:
+            res.append((at, kind, t, stamp))
     return res
 
 
 def known_finding(c, findings):
+    """A case is attributed to a finding only if EVERY violated clause of EVERY query is explained by it:
+    F5  - 'single' violated, all stamps inside the query's window, and a successful RocksDB catch-up step lies
+          strictly between the query's 'located' and 'before_cache_insert' steps (between two of its lookups);
+    F23 - RocksDB partial reload that returned the validation error: the stamps outside the window are exactly
+          the stamp that reload's catch-up exposed, and the catch-up precedes the end of the query;
+    F24 - the same for a partial reload that returned the timeout error (late catch-up)."""
     r = violations(c)
     if r is None:
         return None
@@ -222,34 +242,29 @@ def known_finding(c, findings):
     cu = _catchups(c, a)
     views = {x["t"]: x for x in a["views"]}
     used = set()
-    # stamps that only exist because a FAILED partial RocksDB reload still caught up (F23 / F24)
-    disk_after = {}
-    for (i, kind, t) in cu:
-        if kind in ("nokey", "late"):
-            disk_after[i] = kind
     for clause, t in v:
         x = views[t]
-        explained = None
-        # F5: a catch-up step between two lookups of this query: after its first lookup (located) and
-        # before its last one (before_cache_insert)
+        bad = set(st for st, g in zip(x["stamps"], x["gens"]) if not g)
         p = x["pts"]
         lo_pt, hi_pt = p.get("located"), p.get("before_cache_insert")
-        mid = [(i, kind) for (i, kind, _) in cu if lo_pt is not None and hi_pt is not None and lo_pt < i < hi_pt]
-        if clause == "single" and mid and not x["hit"]:
+        explained = None
+        if clause == "single" and not bad and not x["hit"] and lo_pt is not None and hi_pt is not None and \
+                any(kind == "ok" and lo_pt < i < hi_pt for (i, kind, _, _) in cu):
             explained = "F5"
-        # F23 / F24: the query ran (at least partly) after a failed partial reload that caught up
-        if explained is None and clause in ("window", "single", "monotone"):
-            later = [kind for (i, kind, _) in cu if kind in ("nokey", "late") and i < x["fin"]]
-            if later and c["cfg"]["backend"] != "cdb":
-                explained = "F23" if later[-1] == "nokey" and "nokey" in later else None
-                if explained is None and "late" in later:
-                    explained = "F24"
-                if "nokey" in later and "late" in later:
-                    explained = None   # never generated; do not guess
+        else:
+            for fid, kind in (("F23", "nokey"), ("F24", "late")):
+                exposed = set(st for (i, k, _, st) in cu if k == kind and i < x["fin"] and st is not None)
+                if not exposed:
+                    continue
+                if bad and bad <= exposed:
+                    explained = fid
+                elif not bad and clause == "monotone" and any(
+                        set(st for st, g in zip(y["stamps"], y["gens"]) if not g) & exposed
+                        for y in a["views"] if y["client"] == x["client"] and y["fin"] < x["acq"]):
+                    explained = fid   # the earlier query of the pair saw the exposed stamp
         if explained is None or explained not in ids:
             return None
         used.add(explained)
-    # one finding per case is reported: the generators keep the shapes apart
     if len(used) != 1:
-        return None
+        return None   # the generators keep the shapes apart
     return ids[used.pop()]
